@@ -28,7 +28,19 @@ THEOREMS = [
     'AbacusVerif.Hod.rsd_only_los_lightcone',
     'AbacusVerif.Hod.rsd_off_identity',
     'AbacusVerif.Hod.order_and_ncent',
+    'AbacusVerif.Hod.later_tracer_irrelevant_genGalCat',
+    'AbacusVerif.Hod.nested_in_ic_catalogue',
+    'AbacusVerif.Hod.nested_in_ic_not_through_conformity',
+    'AbacusVerif.Hod.nfw_inherits_host',
+    'AbacusVerif.Hod.nfw_rsd',
+    'AbacusVerif.Hod.nfw_rsd_leaves_the_box',
+    'AbacusVerif.Hod.nfw_order_and_ncent',
+    'AbacusVerif.Hod.W.widths_match_spec',
+    'AbacusVerif.Hod.W.markers_match_spec',
+    'AbacusVerif.Hod.W.chain_matches_model',
+    'AbacusVerif.Hod.W.contribs_sum_eq_marker',
 ]
+LEAN_MODULES = ['AbacusVerif.Props.C09', 'AbacusVerif.Props.C09Widths']
 DRIVER = 'drv_c09'
 RULE = ('one evaluation = one synthetic (halo table, particle table, tracer subset, HOD parameters, RSD mode) run '
         'through the real gen_gal_cat with Nthread=2 (gen_cent / gen_sats observed inside the call) plus one direct '
@@ -48,6 +60,11 @@ TRUSTED = [
     'Nthread fixed at 2 (thread structure is C10)',
 ]
 ASSUMPTIONS = [
+    'NFW satellites (nfw=True, gen_sats_nfw): the threshold rule / at-most-one / nesting clauses do not apply there '
+    '(per-halo, per-tracer Poisson counts from numba\'s global generator; stored randoms, particles, weights and ranks '
+    'unused); checked on that path: centrals as usual, id / mass inheritance, host order, Ncent, the Poisson counts '
+    '(replayed from the same seed with the harness\' own means = occupation x ic), velocities = host velocity when '
+    'f_sigv = 0, satellites within nfw_rescale x rvir of the host, and the RSD range clause',
     'finite widths (sigma, Q > 0, positive masses); hid, mass float64 / int64 as staging() provides them',
     'box RSD range claim under -L/2 <= z < L/2 and |v_z * inv_velz2kms| <= L (a single wrap)',
 ]
@@ -65,6 +82,22 @@ def fr(x):
 def small(case):
     return {k: case[k] for k in ('label', 'flavor', 'subset', 'rsdmode', 'ranks')} | {
         'H': len(case['halo']['hmass']), 'P': len(case['part']['phmass'])}
+
+
+# ----------------------------------------------------------------------------- translator
+
+def extract(ctx):
+    """regenerate lean/AbacusVerif/Generated/HodWidths.lean from the source of gen_cent / gen_sats / gen_gals"""
+    import hodwidths09 as hw
+    from abacusnbody.hod import GRAND_HOD as G
+    try:
+        tab, changed = hw.generate(G)
+    except hw.TieBroken as e:
+        ctx.tie('hodwidths', str(e))
+        return
+    ctx.extra['generated'] = {'file': 'lean/AbacusVerif/Generated/HodWidths.lean', 'rewritten': bool(changed),
+                              'width_rows': len(tab['widths']), 'marker_rows': len(tab['markers']),
+                              'chains': [[list(r) for r in c[1][0]] + [c[1][1]] for c in tab['chains']]}
 
 
 # ----------------------------------------------------------------------------- model requests
@@ -493,6 +526,197 @@ def check_case(ctx, case, rng=None):
     ctx.traces_validated += 4
 
 
+
+# ----------------------------------------------------------------------------- NFW satellites
+
+NFW_RANGE_KEY = 'c09:nfw-rsd-range'
+
+
+def check_case_nfw(ctx, case, rng=None):
+    """nfw=True: centrals as usual; satellites: id / mass / order / counts / Ncent / RSD range; model `nfw`"""
+    import hodgen09 as g
+    arr = g.to_arrays(case)
+    en = g.enabled(case)
+    sc = small(case)
+    sc['nfw'] = True
+    H = sc['H']
+    wc = g.cent_widths(case, arr)
+    if not np.isfinite(wc).all():
+        ctx.count('skipped:non-finite-width')
+        return
+    slc, _ = g.width_slack(case, arr, wc, np.zeros((0, 5)))
+    hr = arr['halo']['hrandoms']
+    keep_exp = np.array([g.rule(en, wc[i], hr[i]) for i in range(H)], dtype=np.int64)
+    if any(g.is_ambiguous(en, wc[i], hr[i], g.row_bands(case, en, wc[i], slc[i])) for i in range(H)):
+        ctx.count('skipped:ambiguous-row')
+        return
+    # Memory safety of the real NFW path: getPointsOnSphere(nPoints, Nthread) builds min(Nthread, nPoints) + 1 block
+    # boundaries but loops over Nthread blocks, so it reads (and may then write) out of bounds whenever a tracer has
+    # fewer than Nthread satellites in total — always the case for a tracer that is not requested; and
+    # compute_fast_NFW starts reading NFW_draw at the satellite's own index.  Such runs are undefined behaviour
+    # (observed: segmentation fault), so they are not executed in this process: the Poisson counts are replayed
+    # first and only runs in which all three tracers get >= Nthread satellites are made.
+    cnt_exp, means = g.expected_nfw_counts(case, arr, keep_exp)
+    tot = cnt_exp.sum(axis=0) if H else np.zeros(3, dtype=np.int64)
+    if not (all(en) and (tot >= g.NTHREAD).all() and (tot < g.NFW_DRAW_LEN).all()):
+        ctx.count('nfw:not-run(real code would index out of bounds: a tracer with < Nthread satellites)')
+        return
+    try:
+        out, rec = g.run_real_nfw(case, arr)
+    except Exception as e:   # noqa: BLE001
+        ctx.fail('gen_gal_cat(nfw=True) raised %s' % type(e).__name__, dict(sc, full=case), repr(e)[:300], 'a catalogue',
+                 key='c09:exception')
+        return
+    LRGc, ELGc, QSOc, IDc, keepc = rec.cent_out
+    keepc = np.array(keepc).astype(np.int64)
+    LRGs, ELGs, QSOs, IDs = rec.nfw_out
+    centd = dict(LRG=LRGc, ELG=ELGc, QSO=QSOc)
+    satd = dict(LRG=LRGs, ELG=ELGs, QSO=QSOs)
+    if not np.array_equal(keepc, keep_exp):
+        i = int(np.nonzero(keepc != keep_exp)[0][0])
+        ctx.fail('gen_cent (nfw run): keep code %d, the threshold rule says %d' % (keepc[i], keep_exp[i]),
+                 dict(sc, row=i, full=case), int(keepc[i]), int(keep_exp[i]), key='c09:threshold-rule-cent')
+        return
+    nontrivial = len(set(keep_exp.tolist())) >= 2 or H >= 1
+    digest = json.dumps([case['halo'], case['tracers'], case['params'], case['nfw_seed']], sort_keys=True, default=str)
+    ctx.case(sc, nontrivial=nontrivial, key=dict(sc, digest=hash_str(digest)))
+    ctx.count('nfw:cases')
+    ctx.count('nfw:rsd' if case['rsd'] else 'nfw:no-rsd')
+    ctx.count('subset:' + case['subset'])
+
+    h = arr['halo']
+    row_of = {int(v): i for i, v in enumerate(h['hid'])}
+    L = arr['params']['Lbox']
+    draws_tokens = []
+    inv_q = Fraction(1 / arr['params']['velz2kms'])
+    for t, T in enumerate(g.TR):
+        tc = g.tracer_table(centd[T], IDc[T])
+        ts = g.tracer_table(satd[T], IDs[T])
+        if T not in case['tracers']:
+            if len(tc['id']) or len(ts['id']) or T in out:
+                ctx.fail('disabled tracer %s has galaxies (nfw)' % T, dict(sc, full=case),
+                         [len(tc['id']), len(ts['id']), T in out], [0, 0, False], key='c09:disabled-tracer-captures')
+            continue
+        rows_c = [i for i in range(H) if keep_exp[i] == CODE[T]]
+        check_table_oracle(ctx, case, arr, T, 'cent', rows_c, tc, 'gen_cent(nfw run)')
+        hod = case['tracers'][T]
+        n = len(ts['id'])
+        ctx.count('nfw:sats', n)
+        rows = []
+        bad = None
+        for j in range(n):
+            i = row_of.get(int(ts['id'][j]))
+            if i is None:
+                bad = 'satellite %d carries id %d, which is no halo id' % (j, int(ts['id'][j]))
+                break
+            if float(ts['mass'][j]) != float(h['hmass'][i]):
+                bad = 'satellite %d carries id of halo row %d but mass %r != %r' % (j, i, float(ts['mass'][j]), float(h['hmass'][i]))
+                break
+            rows.append(i)
+        if bad:
+            ctx.fail('gen_sats_nfw %s: %s' % (T, bad), dict(sc, tracer=T, full=case), 'see message', 'host id and mass',
+                     key='c09:nfw-inherit')
+            continue
+        if any(rows[j] > rows[j + 1] for j in range(n - 1)):
+            ctx.fail('gen_sats_nfw %s: satellites are not in host order' % T, dict(sc, tracer=T, full=case), rows[:30],
+                     sorted(rows)[:30], key='c09:nfw-order')
+            continue
+        cnt = np.bincount(np.array(rows, dtype=np.int64), minlength=H) if H else np.zeros(0, dtype=np.int64)
+        if not np.array_equal(cnt, cnt_exp[:, t]):
+            i = int(np.nonzero(cnt != cnt_exp[:, t])[0][0])
+            ctx.fail('gen_sats_nfw %s: halo row %d has %d satellites, the replayed Poisson draw with mean '
+                     'occupation x ic gives %d' % (T, i, cnt[i], cnt_exp[i, t]),
+                     dict(sc, tracer=T, row=i, seed=case['nfw_seed'], full=case), cnt.tolist()[:30],
+                     cnt_exp[:, t].tolist()[:30], key='c09:nfw-count')
+            continue
+        # kinematics
+        fs = float(hod.get('f_sigv', 0))
+        resc = float(case['tracers']['ELG'].get('nfw_rescale', 1.0)) if 'ELG' in case['tracers'] else 0.0
+        rr = np.array(rows, dtype=np.int64)
+        if n:
+            if fs == 0 and not all(np.array_equal(ts[k], h['hvel'][rr, a]) for a, k in enumerate(('vx', 'vy', 'vz'))):
+                ctx.fail('gen_sats_nfw %s: f_sigv = 0 but a satellite velocity is not its host velocity' % T,
+                         dict(sc, tracer=T, full=case), 'velocities', 'host velocities', key='c09:nfw-inherit')
+                continue
+            dx, dy = ts['x'] - h['hpos'][rr, 0], ts['y'] - h['hpos'][rr, 1]
+            lim = resc * h['hrvir'][rr] * (1 + 1e-9) + 1e-12 * max(1.0, abs(L))
+            if case['rsd']:
+                d2 = np.sqrt(dx * dx + dy * dy)
+            else:
+                dz = ts['z'] - h['hpos'][rr, 2]
+                d2 = np.sqrt(dx * dx + dy * dy + dz * dz)
+            if (d2 > lim).any():
+                j = int(np.nonzero(d2 > lim)[0][0])
+                ctx.fail('gen_sats_nfw %s: satellite %d is %.6g from its host, beyond nfw_rescale x rvir = %.6g' % (
+                    T, j, d2[j], lim[j]), dict(sc, tracer=T, full=case), float(d2[j]), float(lim[j]), key='c09:nfw-position')
+                continue
+            if 'ELG' not in case['tracers'] and float(d2.max()) == 0.0:
+                ctx.count('nfw:degenerate-profile(all satellites on the halo centre, ELG not requested)')
+            if case['rsd']:
+                z = ts['z']
+                outside = ~((z >= -L / 2) & (z < L / 2))
+                if outside.any():
+                    j = int(np.nonzero(outside)[0][0])
+                    ctx.fail('gen_sats_nfw %s with RSD: satellite z = %r is outside [-L/2, L/2) = [%r, %r) '
+                             '(host z = %r; `%% lbox` maps into [0, L))' % (T, float(z[j]), -L / 2, L / 2,
+                                                                           float(h['hpos'][rr[j], 2])),
+                             dict(sc, tracer=T, row=int(rr[j]), full=case), float(z[j]), '[-L/2, L/2)', key=NFW_RANGE_KEY)
+        # assembly
+        if T not in out:
+            ctx.fail('tracer %s missing from the catalogue (nfw)' % T, dict(sc, full=case), sorted(out), sorted(case['tracers']),
+                     key='c09:order-ncent')
+            continue
+        o = out[T]
+        if int(o['Ncent']) != len(rows_c):
+            ctx.fail('%s (nfw): Ncent=%d but %d centrals' % (T, int(o['Ncent']), len(rows_c)), dict(sc, full=case),
+                     int(o['Ncent']), len(rows_c), key='c09:order-ncent')
+        for k in COLS + ['id']:
+            want = np.concatenate([tc[k], ts[k]])
+            got = np.array(o[k])
+            if got.shape != want.shape or not np.array_equal(got, want):
+                ctx.fail('%s (nfw): column %s of the catalogue is not centrals followed by satellites' % (T, k),
+                         dict(sc, full=case), got.tolist()[:20], want.tolist()[:20], key='c09:order-ncent')
+                break
+        # draws for the model: what compute_fast_NFW returned before RSD (z: a pre-image of the observed z)
+        L1 = T[0]
+        for j in range(n):
+            zq = Fraction(float(ts['z'][j]))
+            if case['rsd']:
+                zq = zq - Fraction(float(ts['vz'][j])) * inv_q
+            draws_tokens.append('%s,%d,%s,%s,%s,%s,%s,%s' % (
+                L1, rows[j], fr(ts['x'][j]), fr(ts['y'][j]), '%d/%d' % (zq.numerator, zq.denominator),
+                fr(ts['vx'][j]), fr(ts['vy'][j]), fr(ts['vz'][j])))
+    if set(out) != set(case['tracers']):
+        ctx.fail('catalogue tracers %s != requested %s (nfw)' % (sorted(out), sorted(case['tracers'])), dict(sc, full=case),
+                 sorted(out), sorted(case['tracers']), key='c09:order-ncent')
+    # ---- correspondence with the model
+    wcm = wc.copy()
+    for t in range(3):
+        if not en[t]:
+            wcm[:, t] = 0.37
+    cfg = cfg_tokens(case, arr)
+    line = ' '.join(['nfw'] + cfg + [tri(case, 'alpha_c'), str(H)] + host_tokens(arr, wcm, None) + draws_tokens)
+    m = parse_model(ctx.driver.query([line])[0])
+    if 'err' in m:
+        ctx.disagree('model answered %s to an nfw request the real code served' % m['err'], sc, m['err'], 'ok')
+        return
+    LT = dict(LRG='L', ELG='E', QSO='Q')
+    for T in g.TR:
+        mt = m[LT[T]]
+        if (mt is None) != (T not in out):
+            ctx.disagree('gen_gal_cat(nfw) tracer %s present' % T, sc, mt is not None, T in out)
+        elif mt is not None:
+            if mt[0] != int(out[T]['Ncent']):
+                ctx.disagree('gen_gal_cat(nfw) %s Ncent' % T, sc, mt[0], int(out[T]['Ncent']))
+            tab = {k: np.array(out[T][k]) for k in COLS + ['id']}
+            d = cmp_table_model(case, arr, tab, mt[1])
+            if d:
+                # the model's RSD is `%`: a satellite exactly at z = L (rounding of a tiny negative value) is the
+                # only legitimate difference; anything else is a disagreement
+                ctx.disagree('gen_gal_cat(nfw) %s galaxies: %s' % (T, d), sc, 'model', 'impl')
+    ctx.traces_validated += 1
+
+
 def hash_str(s):
     import hashlib
     return hashlib.blake2b(s.encode(), digest_size=8).hexdigest()
@@ -538,7 +762,7 @@ def run(ctx):
     import hodgen09 as g
     for c in corpus_cases():
         ctx.count('corpus')
-        check_case(ctx, c, ctx.rng)
+        (check_case_nfw if c.get('nfw') else check_case)(ctx, c, ctx.rng)
     for k, (H, P, subset, flavor, rsdmode, ranks) in enumerate(plan(ctx)):
         case = g.gen_case(ctx.rng, H, P, subset, flavor, rsdmode, ranks, label='gen-%d' % k)
         if k % 16 == 5 and case['part']['pinds']:
@@ -550,7 +774,37 @@ def run(ctx):
         check_case(ctx, case, ctx.rng)
         if len(ctx.failures) >= 8:
             break
+    run_nfw(ctx)
     _minimise_failures(ctx)
+
+
+def run_nfw(ctx, scale=1):
+    """nfw=True cases (numba compiles gen_sats_nfw / compute_fast_NFW / getPointsOnSphere on the first one)"""
+    import hodgen09 as g
+    n0 = len([f for f in ctx.failures if f['key'] != NFW_RANGE_KEY])
+    k = 0
+    for rep in range(ctx.pick(4, 12) * scale):
+        for subset in ('LEQ',):     # see check_case_nfw: a run with a tracer switched off is undefined behaviour
+            for flavor in ('generic', 'exact'):
+                for rsdmode in ('off', 'box'):
+                    for (H, P) in ((2, 0), (5, 0), (ctx.pick(14, 40), 6)):
+                        case = g.gen_case(ctx.rng, H, P, subset, flavor, rsdmode, 0, label='nfw-%d' % k)
+                        g.nfw_extend(ctx.rng, case)
+                        k += 1
+                        check_case_nfw(ctx, case, ctx.rng)
+                        # the RSD-range finding repeats on almost every RSD case: keep one
+                        seen = False
+                        kept = []
+                        for f in ctx.failures:
+                            if f['key'] == NFW_RANGE_KEY:
+                                if seen:
+                                    ctx.count('nfw:rsd-range-failures-not-listed')
+                                    continue
+                                seen = True
+                            kept.append(f)
+                        ctx.failures[:] = kept
+                        if len([f for f in ctx.failures if f['key'] != NFW_RANGE_KEY]) - n0 >= 8:
+                            return
 
 
 def _minimise_failures(ctx):
@@ -600,7 +854,7 @@ def failures_of(ctx, case):
     saved = vcommon.log
     vcommon.log = lambda *a: None
     try:
-        check_case(sub, case, np.random.default_rng(0))
+        (check_case_nfw if case.get('nfw') else check_case)(sub, case, np.random.default_rng(0))
     except Exception:   # noqa: BLE001
         return []
     finally:
@@ -654,6 +908,7 @@ def intensify(ctx):
         check_case(ctx, case, ctx.rng)
         if len(ctx.failures) - n0 >= 4:
             break
+    run_nfw(ctx, scale=2)
     _minimise_failures(ctx)
 
 
@@ -665,4 +920,4 @@ def replay(ctx, doc):
         c = c['input']
     elif 'full' in c:
         c = c['full']
-    check_case(ctx, c, np.random.default_rng(0))
+    (check_case_nfw if c.get('nfw') else check_case)(ctx, c, np.random.default_rng(0))
